@@ -7,6 +7,8 @@ fn main() {
         "C03" => simx::c03::run_check(&args),
         "C04" => simx::c04::run_check(&args),
         "C06" => simx::c06::run_check(&args),
+        "C07" => simx::c07::run_check(&args),
+        "C08" => simx::c08::run_check(&args),
         "C16" => simx::c16::run_check(&args),
         p => vx::machinery(&format!("simx does not serve {p}")),
     };
